@@ -23,14 +23,16 @@ SCOPE = ('the real compute_ray is executed with a SYMBOLIC DIRECTION: math.sin /
          'operation of the code (step*s, i*dy, y0+...) yields "exact real result +- an error" bounded by 2^-52 relative to a concrete '
          'magnitude bound (plus 2^-1000 absolute for underflow; the bounds are accumulated into one concrete error radius per value), and round() yields a fresh integer r with r-1/2 <= v <= r+1/2 (both neighbours at '
          'ties): a sound over-approximation in linear real/integer arithmetic. One path per number of samples taken before the ray leaves. '
-         'Asserted per ray: starts at the origin; every sample returned lies in the area; consecutive samples (including the first one outside) '
-         'differ by at most 1 in each coordinate; each coordinate is monotone along the ray (so no cell is re-entered: removing repeats only '
-         'merges consecutive samples); the last sample inside lies on the border; the ray leaves within the stated number of samples. '
+         'Decided by the solver, per sample index (itertools.count is stubbed to yield i, i+1 for every i below the bound N, or N alone): sample 0 is the origin; '
+         'if sample i lies in the area, sample i+1 differs by at most 1 in each coordinate and each coordinate moves monotonically in the quadrant\'s '
+         'direction; the cells returned lie in the area and are the rounded samples; sample N lies outside. The whole-ray clauses (no cell re-entered, '
+         'de-duplication merges only consecutive repeats, the last cell lies on the border) follow from these by the induction written in DESIGN.md -- '
+         'a paper argument, not a solver verdict. '
          'Fan clauses (every cell reached, unobstructed view all-visible, cached == fresh, determinism) are decided by ENUMERATION of the real '
          'compute_rays_fancy / compute_rays / raytracing over all origins of all areas up to the bound: concrete side checks, not solver verdicts, '
          'because the directions are concrete outputs of numpy linspace/arctan2')
 BOUNDS = {
-    'quick': dict(symbolic='areas 1x1..3x3 all origins; 7x7 (the shipped view) from origin (6,3) and the four corners; 4 sign quadrants each; step_size 0.01',
+    'quick': dict(symbolic='areas 1x1..3x3 all origins; 7x7 (the shipped view) from origin (6,3) and two opposite corners; 4 sign quadrants each; step_size 0.01',
                   enumeration='all areas h,w <= 7 with all origins (fancy fan, raytracing visibility; 1-degree fan on small areas), offsets (0,0) and (-3,-2) for small areas; 8x8, 9x9, 8x10, 10x8, 10x10, 11x11, 7x13, 13x7, 13x13 from corners, edge midpoints and centre'),
     'thorough': dict(symbolic='plus every origin of 5x5 and 7x7, 9x9 corners and centre, 4x7 / 7x4', enumeration='all areas h,w <= 9, 13x13 corners and centre'),
 }
@@ -41,7 +43,7 @@ ASSUMPTIONS = ['math.sin(t), math.cos(t) return binary64 values with |s| <= 1, |
                'round(x) of a float returns a nearest integer',
                'int -> float conversion of the sample index is exact (index < 2^53)']
 STUBS = ['math.sin / math.cos inside gym_gridverse.utils.raytracing (symbolic direction)', 'Fl: binary64 value as real term + bounded rounding error']
-TIME_LIMIT = {'quick': 300, 'thorough': 1800}
+TIME_LIMIT = {'quick': 900, 'thorough': 3600}
 
 U = Fraction(1, 2 ** 52)       # relative error bound (2 * unit roundoff: margin)
 TINY = Fraction(1, 2 ** 1000)  # absolute error bound covering underflow
@@ -214,7 +216,10 @@ def mk_ray(area, origin, quadrant, step=0.01):
             return
         i = int(sx.int('i', 0, cap))
         idx = [i, i + 1] if i < cap else [cap]
-        real_math, real_itt = RT.math, RT.itt
+        real_math, real_itt = getattr(RT, 'math', None), getattr(RT, 'itt', None)
+        if real_math is None or real_itt is None:
+            raise EngineError('the raytracing module no longer computes its samples through `math` and `itertools.count()` (names math / itt): '
+                              'the per-sample harness cannot drive it (not a verdict; the enumeration obligations still apply)')
         source = IndexSource(idx)
         RT.math, RT.itt = env, source
         try:
@@ -237,7 +242,7 @@ def mk_ray(area, origin, quadrant, step=0.01):
             sx.cover('start-lemma')
             sx.check(sym_and(pairs[0][0] == oy, pairs[0][1] == ox), 'ray-starts-at-its-origin')
         if len(pairs) < 2:
-            sx.cover('sample-outside')
+            sx.cover('sample-outside', nontrivial=False)
             return
         sx.cover('step-lemma')
         (y0, x0), (y1, x1) = pairs
@@ -303,6 +308,8 @@ def side_fans(shapes, offsets, label):
                         cases += 1
                         cached = getattr(RT, 'cached_' + fname)(P, A)
                         fan = getattr(RT, fname)(P, A)
+                        if fname == 'compute_rays_fancy':
+                            fancy = fan
                         for ray in fan:
                             why = ray_ok(ray, origin, A)
                             if why:
@@ -311,7 +318,11 @@ def side_fans(shapes, offsets, label):
                         reached = {c for ray in as_cells(fan) for c in ray}
                         if fname == 'compute_rays_fancy' and reached != cells:
                             viol('fan-does-not-reach-every-cell', f'area {A} origin {origin}: cells {sorted(cells - reached)[:6]} reached by no ray')
-                        same = as_cells(fan) == as_cells(cached) == as_cells(getattr(RT, 'cached_' + fname)(P, A))
+                        # other queries in between (another origin of the same area, the same origin in another area), then the same question again
+                        other = getattr(RT, 'cached_' + fname)
+                        other(Position(A.ymin, A.xmin), A)
+                        other(P, Area((A.ymin, A.ymax + 1), (A.xmin, A.xmax)))
+                        same = as_cells(fan) == as_cells(cached) == as_cells(other(P, A))
                         if same and h * w <= 9:
                             same = as_cells(getattr(RT, fname)(P, A)) == as_cells(fan)
                         if not same:
@@ -321,6 +332,9 @@ def side_fans(shapes, offsets, label):
                         vis = VF.raytracing(Grid.from_shape((h, w), factory=Floor), P)
                         if not bool(np.all(vis)):
                             viol('unobstructed-ray-traced-view-hides-a-cell', f'{h}x{w} from {origin}: {np.argwhere(~np.asarray(vis, dtype=bool)).tolist()[:6]}')
+                        # the visibility function only reads the memoised fan
+                        if as_cells(RT.cached_compute_rays_fancy(P, A)) != as_cells(fancy):
+                            viol('ray-computation-not-deterministic-or-changed-by-caching', f'fancy fan of area {A} origin {origin} differs after raytracing() used it')
                     # the stub contract of the symbolic obligations holds for every direction of this fan
                     ys = np.linspace(A.ymin, A.ymax + 1, num=A.height + 1) - 0.5 - P.y
                     xs = np.linspace(A.xmin, A.xmax + 1, num=A.width + 1) - 0.5 - P.x
@@ -369,7 +383,7 @@ def obligations(tier):
             todo += [((0, h - 1), (0, w - 1), (y, x)) for y in range(h) for x in range(w)]
     seven = ((0, 6), (0, 6))
     if q:
-        todo += [(*seven, o) for o in [(6, 3), (0, 0), (0, 6), (6, 0), (6, 6)]]
+        todo += [(*seven, o) for o in [(6, 3), (0, 0), (6, 6)]]
         todo += [((-6, 0), (-3, 3), (0, 0))]
     else:
         todo += [(*seven, (y, x)) for y in range(7) for x in range(7)]
